@@ -195,6 +195,26 @@ fn check<C: Cm>(case: &Case) -> PResult {
             straddle_item |= item_straddles;
         }
     }
+    // widths far beyond the sequence (w > n: no item), where scaling the width by the symbol size wraps
+    for w in [usize::MAX, usize::MAX - 1, usize::MAX / 2 + 1, (1usize << 63) + 1, (1usize << 61) + 3, (usize::MAX / bits).saturating_add(1), usize::MAX / bits, usize::MAX / bits - 1] {
+        if w <= n {
+            continue;
+        }
+        let (first, second, count) = no_panic(&format!("windows_far_width_panic/{n_}"), &format!("windows({w}) on length {n}"), || {
+            let mut it = sl.windows(w);
+            let a = it.next().map(|x| x.len());
+            let b = it.next().map(|x| x.len());
+            (a, b, sl.windows(w).take(3).count())
+        })?;
+        ensure!(first.is_none() && second.is_none() && count == 0, format!("windows_far_width/{n_}"), "windows({w}) of a length-{n} sequence yields items: {first:?} {second:?} count {count}");
+        let (first, second, count) = no_panic(&format!("chunks_far_width_panic/{n_}"), &format!("chunks({w}) on length {n}"), || {
+            let mut it = sl.chunks(w);
+            let a = it.next().map(|x| x.len());
+            let b = it.next().map(|x| x.len());
+            (a, b, sl.chunks(w).take(3).count())
+        })?;
+        ensure!(first.is_none() && second.is_none() && count == 0, format!("chunks_far_width/{n_}"), "chunks({w}) of a length-{n} sequence yields items: {first:?} {second:?} count {count}");
+    }
     // Vec<Seq>::from_iter over windows / chunks (one width)
     if n >= 1 {
         let w = 1 + (case.widths.first().copied().unwrap_or(0) as usize) % n.min(7);
